@@ -176,6 +176,29 @@ def r08a(R):
             else:
                 if not is_held:
                     unheld_reads.append((n, f, construct))
+        # a value read outside the lock must not decide anything inside it:
+        # by the time the lock is held the field may have changed (job
+        # finished in between -> nobody starts the job just queued)
+        if hn and not all_held:
+            for n, f, construct in unheld_reads:
+                if not (n.kind == 'stmt' and isinstance(n.ast, ast.Assign)):
+                    continue
+                for t in n.ast.targets:
+                    if not isinstance(t, ast.Name):
+                        continue
+                    stale = [h for h in A.cfg(m).nodes if h.id in hn
+                             and h.ast is not None and any(
+                                 isinstance(x, ast.Name) and x.id == t.id
+                                 and isinstance(x.ctx, ast.Load)
+                                 for e in h.exprs() for x in ast.walk(e))]
+                    R.check(m, n.ast, not stale,
+                            '%s is read into `%s` before the lock is taken and '
+                            'that value is used while the lock is held (%s): '
+                            'the decision is made on a stale value - a job '
+                            'that finishes in between leaves the queue with '
+                            'nobody to start the next one' % (
+                                f, t.id, norm(stale[0].ast)[:60] if stale else ''),
+                            line=n.ast.lineno)
         if unheld_reads:
             distinct_fields = set(f for _n, f, _c in unheld_reads)
             ok = len(unheld_reads) == 1
